@@ -40,6 +40,7 @@ type Obligation struct {
 	Kind   string
 	Func   string
 	SMT    string // complete smt2 text
+	SMTFocus string // same obligation with only the quantified assumptions that mention the goal's symbols (sound: fewer hypotheses)
 	Desc   string // human-readable goal
 	Vars   map[string]string // model variables of interest: label -> smt term
 	Inputs []InputSpec
